@@ -298,6 +298,17 @@ impl<'a> G15<'a> {
                 (format!("({} {})", op, a.join(" ")), "char-compare")
             }
         };
+        // an operation evaluated for its value sits as a later operand of an enclosing call, so
+        // that a primitive that does not pop exactly its own operands disturbs its neighbours
+        let text = if !text.starts_with("(define ") && self.rng.chance(2, 3) {
+            match self.rng.below(3) {
+                0 => format!("(list 'pre {} 'post)", text),
+                1 => format!("(vector #\\p (if #t {} 'never) 42)", text),
+                _ => format!("(cons \"pre\" {})", text),
+            }
+        } else {
+            text
+        };
         self.ops.push(name);
         self.emit(&text);
         self.dump();
